@@ -131,8 +131,8 @@ func VerifC29_internalGateInit() {
 	for t := 1; t <= nthreads; t++ {
 		id := t
 		op := 0
-		if id == 2 {
-			op = 2 * vfChoice("op", 2) // the second goroutine uses Lock or WaitAndLock
+		if id == 2 && vfTier() == 0 {
+			op = 2 * vfChoice("op", 2) // quick: the second goroutine uses Lock or WaitAndLock
 		} else {
 			op = vfChoice("op", 3)
 		}
